@@ -194,6 +194,7 @@ class ScalarOut(DecoratedOut):
 
 
 class DirectivesOut(OutputCoercer):
+    property_ids = ('C02', 'C03', 'C13')
     key = O + 'directives_coercer.py::output_directives_coercer'
     params = ['result', 'info', 'execution_context', 'field_nodes', 'path', 'coercer', 'directives']
     inner_params = ('coercer',)
